@@ -42,6 +42,8 @@ POOL_LARGE = POOL_SMALL + [
     "function() 1", "function(x, y, z) x", "function(x=1) x", "std.length", "std.map", "std.id",
     'function(x) error "f-err"', "function(x) x > 1", "function(a, b) a + b", "function(k, v) [k, v]",
     "function(x) [x]", "function(x) {a: x}",
+    "function(x, y=cap) [x, y]", "function(a, b, c=cap) a + c", "function(x, y=cap + x) y", "function(k, v=1, w=[cap, k]) w",
+    "function(x=cap) x", "[function(x, y=cap) y]", "{f: function(x, y=cap) y}",
     "[1e308, 1e308]", "[-1e308, -1e308, 1]", '"%.70000f"', '"%.65536e"', '"%70000d"', '"%.65535g"', '"%0*.*f"',
     '"%(a)5.3s"', "[3, 1e308]", "[5, 70000, 1]", '["\u20ac\u20ac"]',
 ]
@@ -201,7 +203,7 @@ def matrix_shard(args):
             for combo in combos:
                 if not all(size_ok(fname, i, a) for i, a in enumerate(combo)):
                     continue
-                src = "std.%s(%s)" % (fname, ", ".join(combo))
+                src = "local cap = 7; std.%s(%s)" % (fname, ", ".join(combo))
                 if fname == "format" or fname == "mod":
                     pass
                 lines = run_lines(src, multiline=0)
